@@ -185,7 +185,10 @@ def discretize_arc(points, close=False, scale=1.0):
     count = np.max([count_a, count_l])
     # force at LEAST 4 points for the arc
     # otherwise the endpoints will diverge
-    count = np.clip(count, 4, np.inf)
+    # and at most `res.max_sections` (like the other curves): the length
+    # criterion is relative to `scale`, an arc that is huge compared to
+    # it would otherwise be cut into millions of segments
+    count = np.clip(count, 4, max(res.max_sections, count_a))
     count = int(np.ceil(count))
 
     V1 = util.unitize(points[0] - center)
